@@ -155,6 +155,9 @@ impl Check for C14 {
     fn hang_is_violation(&self) -> bool {
         true
     }
+    fn nondeterministic(&self) -> bool {
+        true
+    }
     fn generate(&self, d: &mut Dec, thorough: bool) -> Case {
         let p = GenParams {
             max_pats: 3,
